@@ -525,8 +525,16 @@ pub fn run(ctx: &Ctx, rep: &mut Report) {
                             got.insert((off, b, node.left_id as i32, node.right_id as i32, node.cost as i32, pos));
                         } else {
                             dict_lens.insert(b - off);
+                            rep.count("dictionary_candidates_checked_against_word_starts", 1);
+                            if b < n && !tm.can_bow[b] {
+                                rep.violation("oov_candidates", "lattice", &format!("the dictionary word at chars {}..{} ends before {:?}, a character that cannot start a word: the base character is cut from what belongs to it", off, b, tm.chars[b]), "", scen(&format!("classes {:x?}", tm.cats)));
+                                failed = true;
+                            }
                         }
                     }
+                }
+                if failed {
+                    break;
                 }
                 let exp = model_position(&defs, &tm, reading, &providers, off, &dict_lens);
                 rep.count("positions_checked", 1);
